@@ -42,10 +42,24 @@ Definition w_colliding_skipped : pval := pdict 1 [(kint 1, PProp 2); (kstr "1", 
 (* D09  frozenset({1}), deque([1, 2]) : __getstate__() is None, the items live elsewhere *)
 Definition w_frozenset : pval := PObj 1 (s "builtins") (s "frozenset") HKSet [pint 1] OKState (PScalar 5 SNone).
 Definition w_deque : pval := PObj 1 (s "collections") (s "deque") HKSeq [pint 1; pint 2] OKState (PScalar 5 SNone).
-(* D10  a 2x2 object array whose cells are lists *)
+(* D10 (repaired)  a 2x2 object array whose cells are lists *)
 Definition w_objarr_seq : pval :=
   PObjArr 1 (s "numpy") (s "ndarray") [2; 2]%Z
     [plist 2 [pint 1; pint 2]; plist 3 [pint 3; pint 4]; plist 4 [pint 5; pint 6]; plist 5 [pint 7; pint 8]].
+(* further shapes of D10 / C13-F1: a rank-0 array holding a list; a rank-0 array holding the empty tuple (the very object that is
+   its shape); shape (1,2,1) with a tuple and a list; shapes (2,0) and (0,2) (no cell: two empty lists / no list); a rank-0 array
+   holding a dict; a (2,1) array holding a (1,2,1) array and a list that is also a cell of that array *)
+Definition w_objarr_rank0 : pval := PObjArr 1 (s "numpy") (s "ndarray") [] [plist 2 [pint 1; pint 2]].
+Definition w_objarr_20 : pval := PObjArr 1 (s "numpy") (s "ndarray") [2; 0]%Z [].
+Definition w_objarr_more : list pval :=
+  let sh := plist 2 [pint 1; pint 2] in
+  let a121 := PObjArr 3 (s "numpy") (s "ndarray") [1; 2; 1]%Z [ptuple empty_tuple_id []; sh] in
+  [w_objarr_rank0;
+   PObjArr 1 (s "numpy") (s "ndarray") [] [ptuple empty_tuple_id []];
+   a121; w_objarr_20;
+   PObjArr 1 (s "numpy") (s "ndarray") [0; 2]%Z [];
+   PObjArr 1 (s "numpy") (s "ndarray") [] [pdict 4 []];
+   plist 9 [PObjArr 1 (s "numpy") (s "ndarray") [2; 1]%Z [a121; sh]; sh]].
 (* D26  {'a': property(...), 'b': 2} *)
 Definition w_property_value : pval := pdict 1 [(kstr "a", PProp 2); (kstr "b", pint 2)].
 (* MyInt(5), MyStr('s') *)
